@@ -145,7 +145,22 @@ func startPacWorker() *c04Worker {
 
 func pacIsolated(key []byte) func(b []byte) isoResult { return isolated("pac", key) }
 
+// isolated runs one probe in the worker; a probe during which the worker dies is run once more in a fresh worker, so
+// that a death caused by the memory earlier probes left behind (the worker lives under a data-segment limit) is not
+// charged to this input.
 func isolated(name string, key []byte) func(b []byte) isoResult {
+	once := isolatedOnce(name, key)
+	return func(b []byte) isoResult {
+		fresh := pacW == nil // the worker (re)starts with this probe: nothing was left behind by earlier ones
+		r := once(b)
+		if r.crashed && !fresh {
+			r = once(b)
+		}
+		return r
+	}
+}
+
+func isolatedOnce(name string, key []byte) func(b []byte) isoResult {
 	return func(b []byte) isoResult {
 		if pacW == nil {
 			pacW = startPacWorker()
@@ -732,6 +747,52 @@ func c04(c *Ctx) {
 	}
 	_ = strings.TrimSpace
 	c04Kpasswd(c)
+	c04ReferralLoop(c)
+}
+
+// c04ReferralLoop: two KDCs that refer the client to each other for ever: the exchange ends with an error (the
+// referral limit), not with a panic or a hang.
+func c04ReferralLoop(c *Ctx) {
+	ra, rb := "LOOPA.GOKRB5", "LOOPB.GOKRB5"
+	ka, kb := kdc.New(ra), kdc.New(rb)
+	ka.StrictCRealm, kb.StrictCRealm = false, false
+	ka.AddPrincipal([]string{"testuser1"}, "passwordvalue", 2)
+	ka.Referrals["example.org"] = rb
+	kb.Referrals["example.org"] = ra
+	keys := map[int32]types.EncryptionKey{}
+	for _, et := range kdc.AllEtypes {
+		keys[et] = randKey(c, et)
+	}
+	ka.CrossKeys[rb], kb.CrossKeys[ra] = keys, keys
+	if ka.Serve() != nil || kb.Serve() != nil {
+		c.Notes = append(c.Notes, "KDC listen (referral loop)")
+		return
+	}
+	defer ka.Close()
+	defer kb.Close()
+	cfg := testConfig(ra, []string{ka.Addr}, []int32{18})
+	cfg.Realms = []config.Realm{{Realm: ra, KDC: []string{ka.Addr}}, {Realm: rb, KDC: []string{kb.Addr}}}
+	cl := client.NewWithPassword("testuser1", ra, "passwordvalue", cfg, client.DisablePAFXFAST(true))
+	if err := cl.Login(); err != nil {
+		c.Check(false, "login succeeds against a conformant KDC", "login-fails", err.Error(), nil)
+		return
+	}
+	done := make(chan struct{})
+	var p bool
+	var pv interface{}
+	var err error
+	go func() {
+		p, pv = guard(func() { _, _, err = cl.GetServiceTicket("HTTP/far.example.org") })
+		close(done)
+	}()
+	select {
+	case <-done:
+		c.Check(!p && err != nil, "an endless referral chain ends with an error, not a panic", "panic:client.TGSExchange(referral loop)", fmt.Sprint(pv, err), nil)
+	case <-time.After(20 * time.Second):
+		c.Check(false, "terminates promptly", "hang:client.TGSExchange(referral loop)", "20 s", nil)
+	}
+	c.Count("structural:referral-loop")
+	cl.Destroy()
 }
 
 // c04Kpasswd drives Client.ChangePasswd against a simulated KDC (AS exchange for kadmin/changepw) and a scripted
